@@ -31,7 +31,21 @@ NUM_MAPS, ANY_MAPS = ["inc", "dbl", "neg", "sq"], ["wrap", "ident", "isnone"]
 NUM_FILTS, ANY_FILTS = ["odd", "even", "pos", "n3"], ["notnone", "truthy", "all"]
 HETERO = [None, None, 0, False, "", "a", (1,), 2.5, (), 0.0, "None", True]
 CTORS = {"list": list, "tuple": tuple, "deque": deque, "set": set}
-SCALARS = [5, 0, 2.5, None, Fraction(1, 3), 1j, True]
+class _Plain(object):
+  """A non-iterable instance."""
+
+
+class _IterableInstances(object):
+  """The *class* is not iterable although its instances are."""
+  def __iter__(self):
+    return iter(())
+
+
+# non-iterable objects: numbers, None, class objects (incl. classes whose
+# instances are iterable), functions, a plain instance
+SCALARS = [5, 0, 2.5, None, Fraction(1, 3), 1j, True,
+           list, tuple, dict, str, Stream, deque, _IterableInstances, int,
+           len, _Plain(), Ellipsis, Fraction]
 PEEK_LEN = 24   # how much of an endless stream is compared at the end
 
 
